@@ -1932,3 +1932,54 @@ Lemma backlog_range_default cap qs first from to :
 Proof.
   intros Hc. rewrite (new_ring_default cap Hc). apply backlog_range_repaired. unfold max_make. lia.
 Qed.
+
+(* ================================================================== *)
+(* 8. concurrent handlers of the sender                                 *)
+(* ================================================================== *)
+Lemma ss_repaired_inv fl g cap ops : f_race fl = false -> (N.of_nat (length ops) < n64)%N ->
+  exists evs, (length evs <= length ops)%nat /\
+    ss_chan (ss_run fl g cap ops) = reqs_from g 0 evs /\
+    ss_seq (ss_run fl g cap ops) = N.of_nat (length evs) /\
+    ss_ring (ss_run fl g cap ops) = fold_left push (reqs_from g 0 evs) (new_ring cap) /\
+    forall i x, aget N.eqb i (ss_pend (ss_run fl g cap ops)) = Some x -> fst x = None.
+Proof.
+  intros Hr. unfold ss_run.
+  induction ops as [|o ops IH] using rev_ind; intros Hlen.
+  - exists []. simpl. repeat split; auto. discriminate.
+  - rewrite app_length in Hlen. simpl in Hlen.
+    destruct (IH ltac:(lia)) as (evs & Hle & Hc & Hs & Hg & Hp). clear IH.
+    rewrite fold_left_app. cbn [fold_left]. set (st := fold_left (ss_step fl g) ops (ss_init cap)) in *.
+    destruct o as [i s rel|i]; unfold ss_step.
+    + rewrite Hr. exists evs. cbn [ss_chan ss_seq ss_ring ss_pend]. rewrite app_length. simpl.
+      repeat split; auto; try lia.
+      intros j x. rewrite (aget_aset N.eqb N.eqb_eq). destruct (N.eqb j i); [intros E; inversion E; reflexivity|apply Hp].
+    + destruct (aget N.eqb i (ss_pend st)) as [[osq [s rel]]|] eqn:Ei.
+      * pose proof (Hp i _ Ei) as Hn. simpl in Hn. subst osq.
+        exists (evs ++ [(s, rel)]). cbn [ss_chan ss_seq ss_ring ss_pend]. rewrite !app_length. simpl.
+        assert (Hsq : n64z (ss_seq st + 1) = (N.of_nat (length evs) + 1)%N).
+        { rewrite Hs. unfold n64z. apply N.mod_small. lia. }
+        rewrite Hsq, reqs_from_app, fold_left_app, N.add_0_l. cbn [reqs_from fold_left]. unfold act_of.
+        repeat split; try lia.
+        -- rewrite Hc. reflexivity.
+        -- rewrite Hg. reflexivity.
+        -- intros j x. rewrite (aget_adel N.eqb N.eqb_eq). destruct (N.eqb j i); [discriminate|apply Hp].
+      * exists evs. rewrite app_length. simpl. repeat split; auto; lia.
+Qed.
+
+Lemma sender_atomic_exact fl g cap ops from to :
+  f_race fl = false -> f_range fl = false -> (N.of_nat (length ops) < n64)%N ->
+  (0 < cap <= max_make)%Z -> (0 <= from < two64)%Z -> (0 <= to < two64)%Z ->
+  let st := ss_run fl g cap ops in
+  consec 1 (ss_chan st) /\ ss_seq st = N.of_nat (length (ss_chan st)) /\
+  ss_ring st = fold_left push (ss_chan st) (new_ring cap) /\
+  range fl (ss_ring st) from to =
+    Ok (map Some (filter (in_range from to) (skipn (length (ss_chan st) - Z.to_nat cap) (ss_chan st)))).
+Proof.
+  intros Hr Hfr Hlen Hcap Hf Ht st. subst st.
+  destruct (ss_repaired_inv fl g cap ops Hr Hlen) as (evs & Hle & Hc & Hs & Hg & _).
+  rewrite Hc, Hs, Hg, reqs_from_length. split; [apply (reqs_from_consec g 0 evs)|]. split; [reflexivity|]. split; [reflexivity|].
+  unfold range. rewrite Hfr.
+  pose proof (backlog_range_repaired cap (reqs_from g 0 evs) 1 from to Hcap (reqs_from_consec g 0 evs) ltac:(lia)) as G.
+  rewrite reqs_from_length in G. unfold range in G. cbn [f_range repaired] in G.
+  apply G; try assumption. unfold two64, n64 in *. lia.
+Qed.
